@@ -1,5 +1,6 @@
 import DicomModel.Model.Util
 import DicomModel.Model.DsReaderWords
+import DicomModel.Model.LazyWords
 import Driver.Loop
 open Dicom Dicom.Rd
 
@@ -63,7 +64,7 @@ def oracle (pfx : String) (base total : Nat) (obs : List Obs) : Option String :=
     | o :: rest =>
       if isEnd o.word then none
       else if o.pos ≠ base + o.consumed then
-        let cls := if (o.word.startsWith "F:" || o.word.startsWith "O:") && o.consumed == total
+        let cls := if (o.word.startsWith "F:" || o.word.startsWith "O:" || o.word == "V:skip") && o.consumed == total
           then "item-value-truncated-position" else pfx ++ "position-not-consumed"
         some s!"PROP-FAIL class={cls} reader={if pfx.isEmpty then "eager" else "lazy"} token={(o.word.take 40).toString} position={o.pos} base={base} consumed={o.consumed}"
       else
@@ -115,12 +116,28 @@ def handleRd (ts odd mode base flags bytes expect : String) (rest : List String)
         match posDiff with
         | some (r, o) => s!"MODEL-DIFF position token={(o.word.take 40).toString} model={r.pos}/{r.consumed} impl={o.pos}/{o.consumed}"
         | none =>
+          -- 3. the lazy reader model (C06's, default options: accepting strategy; values fetched with the
+          -- preserved strategy or skipped; no Pixel Representation override in that model)
+          let lazyApplies := odd == "a" && mode == "1" &&
+            !(lWords.any fun w => (w.splitOn "H:00280103").length > 1)
+          let lazyDiff : Option String :=
+            if lazyApplies then
+              let (mw, mend) := Dicom.LP.lazyWords sx (relaxedDict stdDictV) b bs
+              let mAll := mw.map (·.1) ++ mend.toList
+              if !wordsEq mAll lWords then some s!"MODEL-DIFF lazy tokens {firstDiff 0 mAll lWords}"
+              else match (mw.zip lo).find? fun (m, o) => !isEnd o.word && (m.2.1 ≠ o.pos || m.2.2 ≠ o.consumed) with
+                | some (m, o) => some s!"MODEL-DIFF lazy position token={(o.word.take 40).toString} model={m.2.1}/{m.2.2} impl={o.pos}/{o.consumed}"
+                | none => none
+            else none
+          match lazyDiff with
+          | some d => d
+          | none =>
           let oddSeen := eWords.any fun w => match headerLen w with | some l => l % 2 == 1 | none => false
           let ending := match eWords.getLast? with
             | some "D" => "end" | some w => (if w.startsWith "E:" then (w.drop 2).toString else "cap") | none => "none"
           let shape := (if eWords.any (·.startsWith "S:") then "sq" else "") ++ (if eWords.any (· == "P") then "px" else "")
           let triv := if bs.isEmpty then "trivial-" else ""
-          s!"ok {triv}ts{ts}-{odd}-m{mode}-{flags}-{if exp.isSome then "exp" else "noexp"}-{if oddSeen then "odd" else "even"}-{ending}-{if shape.isEmpty then "flat" else shape}-{if b == 0 then "b0" else "bN"}"
+          s!"ok {triv}ts{ts}-{odd}-m{mode}-{flags}-{if exp.isSome then "exp" else "noexp"}-{if oddSeen then "odd" else "even"}-{ending}-{if shape.isEmpty then "flat" else shape}-{if b == 0 then "b0" else "bN"}{if lazyApplies then "-lz" else ""}"
     | _, _ => "BAD-LINE"
   | _, _, _, _, _, _ => "BAD-LINE"
 
